@@ -13,6 +13,7 @@ func init() {
 		"attribute filters may decide on key AND value (attribute.Filter takes a KeyValue): generated value-dependent filters are pure functions of one key-value pair and the reference applies the same predicate to every key-value of every measurement; limit_concurrent uses no attribute filter",
 		"OTEL_GO_X_CARDINALITY_LIMIT is read as documented ('the integer limit value'; 'All other values are ignored'; '<= 0: no limit'): optional sign + decimal digits = that integer, leading zeros included; values no reading takes for an integer = no limit; spellings the documentation leaves open (0x10, 1_000, 1e3, 2.0, blanks) are not generated",
 		"a synchronous instrument requested twice from one meter (identically or with its name in upper case) is one instrument: one stream, one set table, every measurement counted once whichever handle made it",
+		"config_lent: a provider's configuration is what its arguments held when NewMeterProvider (NewView, NewManualReader, the filter constructors, WithAttributes) returned; the caller overwrites the slices it lent only after those calls returned, never between building an Option and NewMeterProvider (Options are documented to apply when the provider is built); two providers configured from the same buffers are each compared with their own model",
 		"'one collection' is the content of the ResourceMetrics after Collect returned, also when the same ResourceMetrics is passed to every Collect of a reader",
 	))
 }
